@@ -732,7 +732,7 @@ func c10run(k *c10case, sp *c10spec, generous bool) (o c10obs) {
 	rc := make(chan ret, 1)
 	ctx, cancel := context.WithCancel(context.Background())
 	defer cancel()
-	sc := sp.scan(k.Scheme, timeout)
+	sc := c10scanner(sp, k.Scheme, timeout)
 	req := &scan.Request{DstIP: s.ip, DstPort: uint16(s.port)}
 	t0 := time.Now()
 	go func() {
@@ -811,6 +811,10 @@ func c10run(k *c10case, sp *c10spec, generous bool) (o c10obs) {
 		}
 		if msg := sp.checkRecord(k, r.res, s.ip, s.port); msg != "" {
 			fail(sp.scanner+":record-fields:"+k.name(), "%s (target %s)", msg, o.Target)
+		} else if b, err := r.res.MarshalJSON(); err == nil {
+			c10scanMu.Lock()
+			c10kept = append(c10kept, c10keptRec{r.res, string(b), o.Target, k.name()})
+			c10scanMu.Unlock()
 		}
 		if r.err != nil {
 			fail(sp.scanner+":record-and-error:"+k.name(), "both a record and an error (%v)", r.err)
@@ -824,6 +828,52 @@ func c10run(k *c10case, sp *c10spec, generous bool) (o c10obs) {
 		}
 	}
 	return
+}
+
+// One scanner per (scheme, timeout) serves every case, concurrently, the way one scanner serves all
+// workers of the command; the records it hands out are kept and rendered again at the very end: a
+// record must still describe its own probe after any number of later probes.
+var (
+	c10scanMu   sync.Mutex
+	c10scanners = map[string]scan.Scanner{}
+	c10kept     []c10keptRec
+)
+
+type c10keptRec struct {
+	res    scan.Result
+	json   string
+	target string
+	name   string
+}
+
+func c10scanner(sp *c10spec, scheme string, timeout time.Duration) scan.Scanner {
+	c10scanMu.Lock()
+	defer c10scanMu.Unlock()
+	k := fmt.Sprintf("%s|%s|%v", sp.scanner, scheme, timeout)
+	if c10scanners[k] == nil {
+		c10scanners[k] = sp.scan(scheme, timeout)
+	}
+	return c10scanners[k]
+}
+
+// c10recheck renders every kept record again.
+func c10recheck(c *drv.Ctx, sp *c10spec) {
+	for _, kr := range c10kept {
+		b, err := kr.res.MarshalJSON()
+		if err != nil || string(b) != kr.json {
+			now := string(b)
+			if len(now) > 300 {
+				now = now[:300] + "..."
+			}
+			was := kr.json
+			if len(was) > 300 {
+				was = was[:300] + "..."
+			}
+			c.Fail(sp.scanner+":record-changed-later", fmt.Sprintf("the record returned for the probe of %s (case %s) rendered as %s when it was returned and renders as %s (err %v) after the later probes: a later probe rewrote an earlier result", kr.target, kr.name, was, now, err), nil)
+			break
+		}
+	}
+	c.Add("records_reread_at_end", int64(len(c10kept)))
 }
 
 func c10short(res scan.Result) string {
@@ -935,4 +985,5 @@ func c10drive(c *drv.Ctx, sp *c10spec, cases []*c10case) {
 	}
 	close(ch)
 	wg.Wait()
+	c10recheck(c, sp)
 }
